@@ -264,6 +264,10 @@ impl<S: KSub> KSys<S> {
     fn probes(&self) -> u8 {
         2 * self.n
     }
+    /// largest relative expiration / export time: T+1, capped so that the absolute value fits the time type
+    fn emax(&self) -> u8 {
+        (self.tmax + 1).min(255 - self.tb)
+    }
     fn buffer_bound(&self) -> usize {
         8 * (self.n as usize + 1) + self.hint.max(8)
     }
@@ -590,7 +594,7 @@ impl<S: KSub> System for KSys<S> {
         for i in 0..self.n {
             let k = 2 * i + 1;
             if !o.model.iter().any(|(id, _)| *id == k) {
-                for e in o.t..=self.tmax + 1 {
+                for e in o.t..=self.emax() {
                     out.push(op(K_INS, k, e));
                 }
             }
@@ -636,7 +640,7 @@ impl<S: KSub> System for KSys<S> {
             return;
         }
         let t0 = Self::clock_at(hist);
-        for tq in t0..=self.tmax + 1 {
+        for tq in t0..=self.emax() {
             let was = cx.muted;
             cx.muted = true;
             let o = engine::rebuild(self, hist, cx);
@@ -667,6 +671,11 @@ impl<S: KSub> System for KSys<S> {
     }
     fn may_inject(&self, o: &KObj<S>) -> bool {
         o.inj_used < self.inj_budget
+    }
+    fn step_allowed(&self, o: &KObj<S>, op: u32) -> bool {
+        let mut v = vec![];
+        self.enabled(o, &mut v);
+        v.contains(&op)
     }
     fn twin(&self, hist: &[Step], cx: &mut Cx) -> Option<KObj<S>> {
         if !self.f.o_twin {
